@@ -2,6 +2,7 @@ import AfkakProps.Open.C09
 import Afkak.Monitor.C09
 import Afkak.Producer
 import AfkakProofs.Producer.Spec
+import AfkakProofs.Producer.RelStep
 /-!
 # C09 — Per-partition send order is preserved and retries are disciplined
 Property theorems only.  Model: `Afkak/Producer.lean`; monitors: `Afkak/Monitor/C09.lean`.
@@ -12,6 +13,19 @@ open Afkak.Consts Afkak.Producer Afkak.Monitor.ProducerTrace Afkak.Monitor.C09
 /-- The back-off factor the source contains really makes delays GROW (`1 < factor`), and is positive;
     the geometric-delay statements depend on it.  Re-checked against `/repo` on every run. -/
 theorem C09_factor_gt_one : 1 < producerRetryFactor ∧ 0 < producerInitRetryInterval := by decide +kernel
+
+/-- Retry only what failed — trace level, for EVERY event list: a retry (the produce request sent by
+    the timer that was set while the previous attempt's result was handled) carries exactly the payloads
+    that result reported failed — its failed payloads, then its error-coded responses, or for a total
+    failure the still unacknowledged payloads of the batch — each unchanged (the same sends in the same
+    order), and never a payload acknowledged earlier in the batch. -/
+theorem C09_retry_only_failed (cfg : Cfg) (evs : List Ev) : retryOnlyFailed cfg (traceOf cfg evs) = true :=
+  retryOnlyFailed_model cfg evs
+
+/-- Attempt bound — trace level, for EVERY event list: a batch is sent at most
+    `max(1, max_req_attempts)` times (first attempt plus retries). -/
+theorem C09_attempt_bound (cfg : Cfg) (evs : List Ev) : attemptBound cfg (traceOf cfg evs) = true :=
+  attemptBound_model cfg evs
 
 /-- Retry only what failed (handler level): whatever result `r` the client gives for the attempt in
     flight (valid or not, any state `st`), `_handle_send_response` either resolves the batch or
@@ -54,13 +68,13 @@ end Afkak.Props.C09
 
 /- OBLIGATIONS
 C09_factor_gt_one
+C09_retry_only_failed
+C09_attempt_bound
 C09_retry_only_failed_handler
 C09_retry_guard_handler
 -/
 /- OPEN_STATEMENTS
 C09_order
 C09_one_batch
-C09_retry_only_failed
-C09_attempt_bound
 C09_geometric
 -/
